@@ -30,6 +30,18 @@ CLAIMED = {
    text="same pipeline and compiled types as C02; for every valid instance with declared members only, TLC validates the recorded round trip against ContractSerde!C03: output valid under the schema, declared data contained (modulo pruned null/[]/{}), additions only where a schema or intrinsic default allows, second round trip identical",
    note="bounded as C02; trusted: as C02",
    ref="DESIGN.md 6 C03"),
+ "C01": dict(
+   text="TLC enumerates (document, settings, ingestion history) states over the faithful universe plus generation-stress families; each is replayed through the real TypeSpace, the output is parsed with syn, written into sharded crates and type-checked by rustc with compile errors attributed per case; the recorded ingest/render/compile events are validated by TLC against ContractModule!C01 (accepted => renders, parses, no duplicate items/fields/variants/impls, compiles; supported documents are not rejected)",
+   note="bounded: 178 documents x 2 (thorough 6) settings vectors x 2 (4) histories; type-checking is rustc's verdict; trusted: TLC, syn, rustc 1.80.1, vdrive",
+   ref="DESIGN.md 6 C01"),
+ "C17": dict(
+   text="on the C01 pipeline, every type yielded by iter_types() (name, ident, properties/variants/inner, builder, has_impl, uses_*) is compared by TLC (ContractIntro!C17) with the syn inventory of the rendered module and with rustc's verdict on one trait-bound assertion per claimed impl",
+   note="bounded as C01; trusted: TLC, syn, rustc, vdrive (row ids from the snapshot hook)",
+   ref="DESIGN.md 6 C17"),
+ "C19": dict(
+   text="on the C01 pipeline, every named item of every compiled module is checked by TLC (ContractIntro!C19) for `pub` and for rustc's verdict on the promised trait-bound assertions (Debug+Clone+Serialize+DeserializeOwned+From<&T>; Copy/Eq/Ord/Hash for data-less enums; Eq/Ord/Hash for String newtypes)",
+   note="bounded as C01; trusted: TLC, syn, rustc, vdrive",
+   ref="DESIGN.md 6 C19"),
 }
 NA_REASON = {}
 DEFAULT_NA = "check under construction in this session (DESIGN.md 11); not yet claimed"
